@@ -9,6 +9,8 @@ CONSTANTS
   AllowBad = TRUE
   AllowSplit = TRUE
   AllowRst = TRUE
+  AllowTClose = TRUE
+  AllowCRst = TRUE
   Timeout = 2
   MaxNow = 0
   DrainMode = "raw"
